@@ -160,3 +160,38 @@ def _selection(spec, model):
             if [float(x) for x in got] != [float(x) for x in want]:
                 bad.append({'limits': (lo, hi), 'got': got, 'want': want})
     return {'confirmed': bool(bad), 'observed': bad[:3], 'expected': 'stored points of the branch inside the limits, in order'}
+
+
+@replayer('c03.refusal_history')
+def _refusal_history(spec, model):
+    """filled call first, then the same method without a fill rule outside / inside the measured range"""
+    import pygaps
+    pygaps.logger.disabled = True
+    g = lambda k, d: float(model[k]) if isinstance(model.get(k), (int, float)) else d
+    p = sorted([g('p0', 1.0), g('p1', 2.0), g('p2', 3.0)])
+    l = sorted([g('l0', 1.0), g('l1', 2.0), g('l2', 3.0)])
+    if not (0 < p[0] < p[1] < p[2] and 0 < l[0] < l[1] < l[2]):
+        p, l = [1.0, 2.0, 3.0], [1.0, 2.0, 3.0]
+    method, prior = spec['method'], spec['prior']
+    fills = {'same.fill0': 0, 'same.extrapolate': 'extrapolate', 'same.fill_pair': (1, 2), 'pressure_at.extrapolate': 'extrapolate'}
+    other = {'loading_at': 'pressure_at', 'pressure_at': 'loading_at'}
+    pm = method if prior.startswith('same') else other[method]
+    bad = []
+    x = p if method == 'loading_at' else l
+    for q in (g('q', x[2] * 2), x[0] / 2, x[2] * 2, (x[0] + x[1]) / 2):
+        iso = pygaps.PointIsotherm(pressure=p, loading=l, material='m', adsorbate='nitrogen', temperature=77, pressure_mode='absolute',
+                                   pressure_unit='bar', loading_basis='molar', loading_unit='mmol', material_basis='mass', material_unit='g',
+                                   temperature_unit='K')
+        try:
+            getattr(iso, pm)(g('q2', 1.5), interp_fill=fills[prior])
+        except Exception:
+            pass
+        try:
+            r = getattr(iso, method)(q)
+            out = f"returned {float(r)!r}"
+        except ValueError:
+            out = 'ValueError'
+        inside = x[0] <= q <= x[2]
+        if (out == 'ValueError') == inside:
+            bad.append({'data': {'pressure': p, 'loading': l}, 'query': q, 'inside_range': inside, 'outcome': out})
+    return {'confirmed': bool(bad), 'observed': bad[:3], 'expected': 'ValueError outside the measured range, a value inside it'}
